@@ -3,6 +3,7 @@ package main
 import (
 	"fmt"
 	"os"
+	"strings"
 
 	"golang.org/x/tools/go/ssa"
 )
@@ -74,4 +75,28 @@ func boolKeys(m map[string][]*ssa.Store) map[string]bool {
 		o[k] = true
 	}
 	return o
+}
+
+// cmdCtx prints the execution contexts computed for functions whose name
+// contains one of the given substrings: resverif ctx [-repo dir] <substr>...
+func cmdCtx(args []string) int {
+	repo := "/repo"
+	if len(args) > 1 && args[0] == "-repo" {
+		repo = args[1]
+		args = args[2:]
+	}
+	p, err := Load(repo, "")
+	if err != nil {
+		fmt.Println(err)
+		return 2
+	}
+	ci := p.contexts()
+	for _, f := range p.Repo {
+		for _, a := range args {
+			if strings.Contains(fnName(f), a) {
+				fmt.Printf("%-60s %v  %s\n", fnName(f), ci.ctx[f], ci.why[f])
+			}
+		}
+	}
+	return 0
 }
